@@ -1,4 +1,5 @@
 import MidnightZK.Proofs.C16.Basic
+import MidnightZK.Proofs.C16.Compile
 /-!
 # C16 — decoding and verifying untrusted bytes is total: errors, never crashes
 
@@ -884,6 +885,191 @@ theorem arch_decode_encode (c : ColConsts) (a : Arch) (rest : Bytes) (h : a.nrPo
 
 example : decodeArch (ColConsts.ofList [5]) (encodeArch (Arch.ofBools [true, false, true] 4) ++ [9, 9]) =
     .ok (Arch.ofBools [true, false, true] 4, [9, 9]) := by decide
+
+
+/-! ## ZKIR programs: compilation with unknown witnesses
+
+`compile` (`Model/C16/Compile.lean`) is the layout pass every consumer of an untrusted program
+runs without witnesses (key generation, `min_k`, the cost model, the dummy pass of
+`ZkirRelation::public_inputs`): input resolution, the static checks of each operation, output
+insertion. The harness drives the real pass (`MidnightCircuit::new(.., Some(8))` +
+`dummy_synthesize_run`) over every operation × operand type × immediate parameter and compares the
+outcome class with `compile` line by line. -/
+
+/-- `compile_total` — the compile model returns, for EVERY program, either a memory (the program
+compiles) or one of the outcome classes of `CErr`; and it is compositional: compiling `p ++ q` is
+compiling `p` and then `q` from the memory `p` left (so a verdict never depends on what follows the
+first failing instruction). Totality of the Rust pass is what the correspondence run adds: every
+outcome other than `ok` / an error value (a panic, an abort, a timeout) is an oracle failure. -/
+theorem compile_total (p q : List CInstr) :
+    ((∃ m, compile p = .ok m) ∨ (∃ e, compile p = .error e)) ∧
+    compile (p ++ q) = (match compile p with
+      | .error e => .error e
+      | .ok m => compileFrom m q) := by
+  refine ⟨?_, compileFrom_append p q []⟩
+  cases h : compile p with
+  | ok m => exact Or.inl ⟨m, rfl⟩
+  | error e => exact Or.inr ⟨e, rfl⟩
+
+/-- `compile_never_panics_partial` — a program whose immediates fit 32 bits never reaches the
+`panic` outcome of the model: every branch of every operation ends in `ok` or an error VALUE.
+PARTIAL: the hypothesis cannot be dropped on the pinned tree — the guard of `IntoBytes(n)` on a
+native compares `n as u32` (see `compile_panics_beyond_u32`, a known finding); with the guard
+computed on `usize` the hypothesis disappears. The seeded change C16-1 (first arm of
+`into_bytes_incircuit` removed) is the same theorem failing for `n = 33`: the harness then sees a
+panic where the model says `unsupported`. -/
+theorem compile_never_panics_partial (prog : List CInstr) (h : ∀ i ∈ prog, i.num < 2 ^ 32) :
+    compile prog ≠ .error .panic :=
+  compileFrom_ne_panic prog [] h
+
+example : compile [⟨0, some ⟨2, none⟩, 0, [], [[120]]⟩, ⟨12, none, 33, [⟨[120], none⟩], [[98]]⟩] =
+    .error .unsupported := by decide +kernel
+
+/-- Known finding, mirrored: `Load(Native) x; IntoBytes(2^32) x` — `n as u32 = 0` passes the guard
+of `into_bytes_incircuit` and the decomposition chip panics (`assigned_to_le_bytes`); with a
+constant operand `bytes[n..]` of `IrValue::into_bytes` panics. -/
+theorem compile_panics_beyond_u32 :
+    compile [⟨0, some ⟨2, none⟩, 0, [], [[120]]⟩, ⟨12, none, 2 ^ 32, [⟨[120], none⟩], [[98]]⟩] = .error .panic ∧
+    compile [⟨12, none, 2 ^ 32 + 1, [⟨[55], some (.native (some 7))⟩], [[98]]⟩] = .error .panic := by
+  decide +kernel
+
+/-- The limit `IntoBytes(n)` enforces on a native whose value is UNKNOWN (a loaded witness at
+compile time) is exactly the limit of the off-circuit side: the unknown path accepts `n` iff
+`n ≤ 32` iff SOME field element converts off-circuit. (A guard that lives only on the value-known
+path — the seeded change C16-1 — breaks the first equivalence.) -/
+theorem into_bytes_unknown_limit_eq_offcircuit (n : Nat) :
+    (intoBytesIn n (.native none) = .ok (.bytes n) ↔ n ≤ 32) ∧
+    ((∃ v, v < fqModulus ∧ intoBytesNativeOff n v = .ok (.bytes n)) ↔ n ≤ 32) := by
+  have hnb := nativeBytes_eq
+  constructor
+  · unfold intoBytesIn
+    simp only [hnb]
+    constructor
+    · intro h
+      split at h
+      · simp at h
+      · split at h
+        · simp at h
+        · omega
+    · intro h
+      have h1 : asU32 n = n := Nat.mod_eq_of_lt (by omega)
+      simp [h1, Nat.not_lt.mpr h]
+  · constructor
+    · rintro ⟨v, _, h⟩
+      unfold intoBytesNativeOff at h
+      simp only [hnb] at h
+      split at h
+      · simp at h
+      · split at h
+        · simp at h
+        · omega
+    · intro h
+      refine ⟨0, by decide +kernel, ?_⟩
+      have h1 : asU32 n = n := Nat.mod_eq_of_lt (by omega)
+      unfold intoBytesNativeOff
+      simp [h1, hnb, Nat.not_lt.mpr h]
+
+/-- On a KNOWN native (a constant) the in-circuit side accepts exactly what the off-circuit
+conversion accepts, for every `n` and every value: same result, and an error (or the panic of the
+truncated guard) on one side iff on the other. -/
+theorem into_bytes_known_eq_offcircuit (n v : Nat) (t : CTy) :
+    intoBytesIn n (.native (some v)) = .ok t ↔ intoBytesNativeOff n v = .ok t := by
+  unfold intoBytesIn
+  simp only
+  split
+  · next h =>
+    unfold intoBytesNativeOff
+    simp [h]
+  · rfl
+
+/-- What the value-known check is: the value fits `n` bytes. -/
+theorem into_bytes_known_spec (n v : Nat) (hn : n ≤ 32) :
+    intoBytesIn n (.native (some v)) = .ok (.bytes n) ↔ v < 256 ^ n := by
+  have hnb := nativeBytes_eq
+  have h1 : asU32 n = n := Nat.mod_eq_of_lt (by omega)
+  unfold intoBytesIn intoBytesNativeOff
+  simp only [h1, hnb, Nat.not_lt.mpr hn, if_false]
+  have hp : 0 < 256 ^ n := Nat.pow_pos (by omega)
+  constructor
+  · intro h
+    split at h
+    · simp at h
+    · next hz =>
+      have : v / 256 ^ n = 0 := by omega
+      exact (Nat.div_eq_zero_iff_lt hp).mp this
+  · intro h
+    have : v / 256 ^ n = 0 := (Nat.div_eq_zero_iff_lt hp).mpr h
+    simp [this]
+
+example : intoBytesIn 1 (.native (some 255)) = .ok (.bytes 1) ∧ intoBytesIn 1 (.native (some 256)) = .error .convert := by
+  decide +kernel
+
+/-- `FromBytes(t)`: the static guard both sides share (`IrValue::from_bytes`, `from_bytes_incircuit`)
+accepts exactly: `Native`, `JubjubScalar`, `BigUint(b)` for a non-empty array of at most `b / 8`
+bytes, `JubjubPoint` for 32 bytes. -/
+theorem from_bytes_static_spec (t : IrTy) (len : Nat) :
+    (∃ ct, fromBytesIn t (.bytes len) = .ok ct) ↔
+      (t.tag = 2 ∨ t.tag = 5 ∨ (t.tag = 3 ∧ 8 * len ≤ t.payload.getD 0 ∧ len ≠ 0) ∨ (t.tag = 4 ∧ len = 32)) := by
+  unfold fromBytesIn fromBytesStatic
+  simp only
+  split
+  · simp_all
+  · next h =>
+    simp only [h]
+    split <;> simp_all
+  · next h =>
+    simp only [h]
+    split <;> simp_all
+  · simp_all
+  · next h2 h3 h4 h5 =>
+    simp only [reduceCtorEq, exists_false, false_iff]
+    intro hc
+    rcases hc with hc | hc | hc | hc
+    · exact h2 hc
+    · exact h5 hc
+    · exact h3 hc.1
+    · exact h4 hc.1
+
+/-- `Load(t)`: `check_loadable` (one function, called by both sides) rejects `BigUint(0)` only. -/
+theorem load_limit (t : IrTy) : loadable t = false ↔ (t.tag = 3 ∧ t.payload.getD 0 = 0) := by
+  unfold loadable
+  simp
+
+/-- A name is bound once: after a successful compilation every binding that existed at some
+point is still there with the same type (no instruction can re-type or shadow a variable — the
+`DuplicatedName` check), so the static checks of later instructions see the types the earlier
+ones established. -/
+theorem compile_bindings_stable (p q : List CInstr) (m m' : Mem)
+    (hp : compile p = .ok m) (hq : compileFrom m q = .ok m') :
+    ∀ n t, m.lookup n = some t → m'.lookup n = some t := by
+  have _ := hp
+  exact compileFrom_preserves q m m' hq
+
+example : compile [⟨0, some ⟨2, none⟩, 0, [], [[120]]⟩, ⟨0, some ⟨0, none⟩, 0, [], [[120]]⟩] = .error .dup := by
+  decide +kernel
+
+/-- `extended_k` is the LEAST exponent `e ≥ k` with `2^k · (degree − 1) ≤ 2^e`: `read_from_cs`
+accepts a `k` iff the quotient polynomial fits an extended domain that exists. In particular the
+largest accepted `k` is `S − ⌈log2 (degree − 1)⌉` — a closed form that rounds the logarithm DOWN
+(the seeded change C16-2) accepts `k = 31` for degree 4 and panics in `EvaluationDomain::new`. -/
+theorem extendedK_le_iff (k degree e : Nat) (hk : k ≤ e) (he : e < k + 64) :
+    extendedK k degree ≤ e ↔ 2 ^ k * (degree - 1) ≤ 2 ^ e := by
+  unfold extendedK
+  constructor
+  · intro h
+    have hs := extKLoop_stop 64 k k (degree - 1) (by omega)
+    exact Nat.le_trans hs (Nat.pow_le_pow_right (by omega) h)
+  · intro h
+    exact extKLoop_le k (degree - 1) e h 64 k hk
+
+/-- The `k` bytes `VerifyingKey::read_from_cs` accepts, for every degree. -/
+theorem vk_k_accepted_iff (k degree : Nat) (hk : k ≤ fqS) :
+    extendedK k degree ≤ fqS ↔ 2 ^ k * (degree - 1) ≤ 2 ^ fqS := by
+  have : fqS = 32 := rfl
+  exact extendedK_le_iff k degree fqS hk (by omega)
+
+example : extendedK 30 4 = 32 ∧ extendedK 31 4 = 33 ∧ extendedK 30 8 = 33 ∧ extendedK 29 8 = 32 ∧ extendedK 29 9 = 32 := by
+  decide +kernel
 
 /-! ## Generated constants (re-checked against the current sources on every run) -/
 
